@@ -39,6 +39,10 @@ MCMaxLen == 4
 \* texts with the reading expected of them
 MCSpecialTexts == {
   <<<<88,70,68,49,48,52,56,53,55,54>>, "ref">>,                 \* XFD1048576
+  <<<<90,49>>, "ref">>,                                         \* Z1
+  <<<<65,65,49,58,65,90,50>>, "ref">>,                          \* AA1:AZ2
+  <<<<90,90,57>>, "ref">>,                                      \* ZZ9
+  <<<<122,50,54,58,97,97,50,55>>, "ref">>,                      \* z26:aa27
   <<<<88,70,69,49>>, "junk">>,                                  \* XFE1
   <<<<65,49,48,52,56,53,55,55>>, "junk">>,                      \* A1048577
   <<<<88,70,68,49,48,52,56,53,55,55>>, "junk">>,                \* XFD1048577
@@ -73,9 +77,9 @@ MCSpecialTexts == {
   <<<<83,33,65,49,58,83,33,66,50>>, "open">> }                  \* S!A1:S!B2
 
 \* ---- thorough ---------------------------------------------------------
-\* base rectangles of at most 3x3 with the top left cell in A1:D5 or in the
+\* base rectangles of at most 3x3 with the top left cell in A1:C4 or in the
 \* far corner, row offsets -2..2, column offsets -1..2, more sizes and styles
-BGWindows == { <<1..4, 1..5>>, FarWindow }
+BGWindows == { <<1..3, 1..4>>, FarWindow }
 BGMaxBaseW == 3
 BGMaxBaseH == 3
 BGRowOffs == -2..2
